@@ -3,43 +3,43 @@
 import json, subprocess
 
 CHECKS = {
- "C01": dict(tech="runtime monitoring: crash/exit-status monitor, parser-iteration and reduce-progress assertions at hooks, step-budget sanitizer (tick-instrumented overlay build), growth-exponent monitor, %! marker scan over exhaustive token sequences + feedback fuzzing + scaling families",
-   text="Every input explored was driven through all six entry points (with and without a default field) under recover, a deterministic logical step budget and hook assertions; held = no panic, process death, budget overrun, non-progress reduce, super-polynomial growth or %! marker on the executions listed in the evidence. Polynomial time is decided as a step bound up to the stated sizes, not asymptotically.",
+ "C01": dict(tech="runtime monitoring: crash/exit-status monitor, parser-iteration and reduce-progress assertions at hooks, step-budget sanitizer (tick-instrumented overlay build), growth-exponent monitor, %! marker scan over exhaustive token sequences + feedback fuzzing + scaling families + dictionaries and sizes harvested from the tree under test; every guarded helper call runs under the step budget too",
+   text="Every input explored was driven through all six entry points (without a default field, with an unused one and with fields of the query itself as default field) under recover, a deterministic logical step budget and hook assertions; held = no panic, process death, budget overrun, non-progress reduce, super-polynomial growth or %! marker on the executions listed in the evidence. Polynomial time is decided as a step bound up to the stated sizes, not asymptotically.",
    note="Trusts the Go runtime's panic/exit reporting, the go/ast overlay instrumentation (ticks at every function entry and loop head of the repository's non-test files) and the 240 s single-case stall watchdog for loops outside instrumented code.", ref="5/C01"),
- "C05": dict(tech="runtime monitoring: print-parse-compare oracle (independent precedence-table printer vs public constructors) over an exhaustive depth<=2 tree space and random deeper trees",
-   text="Every tree of depth <= 2 over the leaf alphabet (exhaustive) and seeded deeper trees, printed in six styles by the harness' own printer of the documented table, parsed by the real parser and compared with reflect.DeepEqual against the tree built with the public constructors.",
+ "C05": dict(tech="runtime monitoring: print-parse-compare oracle (independent precedence-table printer vs public constructors and vs a constructor-free normal form) over an exhaustive depth<=2 tree space and random deeper trees",
+   text="Every tree of depth <= 2 over the leaf alphabet (exhaustive) and seeded deeper trees, printed in six styles by the harness' own printer of the documented table, parsed by the real parser and compared with reflect.DeepEqual against the tree built with the public constructors and, independently of those constructors, normal form against normal form (qt.Canon vs oracle.CanonExpr); also chains of up to 1200 clauses, related-parts trees and random field groups.",
    note="The printer is the harness' reading of the documented precedence table; trees deeper than 2 are sampled.", ref="5/C05"),
  "C10": dict(tech="runtime monitoring: result-tuple inspection, expr.Validate and an independent shape walk on every accepted tree over exhaustive token sequences + feedback fuzzing",
-   text="Result tuples of Parse/ToPostgres/ToParameterizedPostgres inspected and every accepted tree validated and shape-checked on all token sequences up to length L, depth<=2 trees and fuzzed inputs.",
+   text="Result tuples of Parse/ToPostgres/ToParameterizedPostgres inspected and every accepted tree validated and shape-checked on all token sequences up to length L over five alphabets, depth<=2 trees, fragments, hostile and related-parts inputs, fuzzed inputs and value lists of up to 100000 members.",
    note="Shape walk is the harness' own statement of well-formedness (fields single terms, range bounds single terms, lists >= 2 plain values, unary one operand, LIKE has a pattern).", ref="5/C10"),
- "C16": dict(tech="runtime monitoring: cursor-walk losslessness oracle, end-stickiness, error-cause recomputation and twin-lexer Peek purity over exhaustive short byte strings + fuzzing",
+ "C16": dict(tech="runtime monitoring: cursor-walk losslessness oracle, end-stickiness, error-cause recomputation, independent character-class models for token starts / word tokens / delimited tokens, and twin-lexer Peek purity over exhaustive short byte strings, every Unicode code point, punctuation pairs + fuzzing",
    text="Every byte string up to length 3/4 over a 40-byte alphabet (exhaustive) plus hostile and fuzzed inputs lexed by the real lexer; token texts must tile the input, errors must have one of the three stated causes, Peek must be pure and Parse must fail on lexical errors.",
-   note="The set of runes that may start a token is restated in the harness.", ref="5/C16"),
+   note="The sets of runes that may start a token and continue a word, and the delimiter rules of quoted and regexp tokens, are restated in the harness.", ref="5/C16"),
 
-  "C06": dict(tech="runtime monitoring: derivation recogniser (memoised CYK-style oracle over the real lexer's tokens with independently typed terms) on every accepted input of exhaustive token sequences, edits of printed trees and feedback fuzzing",
+  "C06": dict(tech="runtime monitoring: derivation recogniser (memoised CYK-style oracle over the real lexer's tokens, each token's kind re-derived from its text, with independently typed terms) on every accepted input, decoded into fresh values and into values that already hold another expression of exhaustive token sequences, edits of printed trees and feedback fuzzing",
    text="For every accepted input explored the returned tree was laid over the real token sequence as a derivation in the documented grammar (typed terms, operators consumed once, brackets around non-empty groups); the token-sequence space up to length L is exhaustive, so acceptance of non-queries is decided completely up to L.",
    note="The recogniser and the term typing are the harness' own statement of the documented grammar; precedence is not part of it (C05).", ref="5/C06"),
-  "C07": dict(tech="runtime monitoring: metamorphic pair oracle (juxtaposed vs explicit AND texts of the same tree) with the ImplicitAnd hook as witness, over exhaustive depth<=2 trees, AND chains and random trees",
+  "C07": dict(tech="runtime monitoring: metamorphic pair oracle (juxtaposed vs explicit AND texts of the same tree) with the ImplicitAnd hook as witness, over exhaustive depth<=2 trees, AND chains of up to 2049 (8193) operands, related-parts trees, escaped-edge values and random trees, without and with a default field",
    text="For every tree explored and every subset of its juxtaposable AND nodes, the juxtaposed and the explicit text parse to DeepEqual trees (or both fail); the hook confirms every written juxtaposition was really injected.",
    note="An AND is not juxtaposable when its left operand's text ends in a bare ~ or ^ (the next term is then that operator's argument by the grammar E~E).", ref="5/C07"),
   "C09": dict(tech="runtime monitoring: metamorphic layout oracle (whitespace refill/removal, keyword case subsets, redundant parentheses at the three stated places) over exhaustive token sequences and depth<=2 trees",
    text="Pairs (base, layout variant) parsed by the real parser; accept/accept pairs must be DeepEqual, and for whitespace and keyword case the variant must fail whenever the base fails.",
-   note="Whitespace is only removed next to a symbol token other than '-' (otherwise tokens would legitimately merge).", ref="5/C09"),
+   note="Whitespace is only removed next to a symbol token other than '-' or next to a quoted / regexp token (otherwise tokens would legitimately merge); also 3…128 redundant parenthesis pairs, chains of up to 1200 units in three layouts, and every kind of last token with and without trailing whitespace.", ref="5/C09"),
   "C11": dict(tech="runtime monitoring: differential oracle Parse(q, f) vs Parse(q) with field erasure and a bare-term walk over exhaustive token sequences, trees and fuzzed inputs",
    text="For every input explored, parsing with an unused default field must accept the same inputs, erase back to the plain tree and leave no bare term as an operand or root.",
-   note="Seven default-field spellings that cannot occur in the generated queries.", ref="5/C11"),
+   note="Seven default-field spellings that cannot occur in the generated queries plus ~400 hostile and generated names; the unused-field rule is decided on the parsed tree; every fourth case is re-parsed after the related texts f:q and f:(q).", ref="5/C11"),
   "C12": dict(tech="runtime monitoring: JSON round-trip oracle (Marshal/Unmarshal/Validate/re-encode/String/Render/RenderParam/DeepEqual with an independent leaf-kind inference predicate) on every accepted input",
    text="Every accepted valid-UTF-8 input explored is encoded, decoded, validated, re-encoded byte-identically, printed and rendered identically; DeepEqual is demanded when each leaf has the kind inferred from its JSON text; exceptions are counted.",
    note="Parameters are compared by value (an integer-valued float and the equal int count as the same parameter).", ref="5/C12"),
   "C13": dict(tech="runtime monitoring: crash monitor (recover + worker exit status) over schema-aware generated, mutated and edge-case JSON documents; second clause exercised only on documents that pass Validate",
    text="No panic or process death decoding any generated document; every document that decodes and validates went through String, %#v, Marshal, Render and RenderParam without a panic.",
    note="Nothing about the content of results is demanded; a run with < 5% validated documents is inconclusive.", ref="5/C13"),
-  "C15": dict(tech="runtime monitoring: call-log replay of a tracing function map against the tree (fold order, arguments), per-operator override and removal differentials, package-level renderers on fuzzy/boost queries",
+  "C15": dict(tech="runtime monitoring: call-log replay of a tracing function map against the tree (fold order, arguments), a second tracer whose results depend on operator and arguments only, per-operator override / empty-result / removal differentials, hand-built, re-typed and JSON-decoded trees, package-level renderers on fuzzy/boost queries",
    text="driver.Base with tracing functions on every tree explored: one call per node, bottom-up, children's results as arguments; overriding one operator changes only its nodes; a missing function gives an error and no partial text; ~/^ queries fail in both package-level renderers.",
    note="Leaf functions' raw-value argument format is not checked (C02's business).", ref="5/C15"),
   "C02": dict(tech="runtime monitoring: PostgreSQL's own parser (libpg_query) as observer of every rendered text + node-kind whitelist + provenance sets, over hostile dictionaries, exhaustive token sequences and feedback fuzzing",
    text="Every successful render explored is re-parsed by PostgreSQL's grammar inside SELECT 1 FROM t WHERE (<text>): exactly one statement, only the WHERE clause populated, no comment tokens, only whitelisted constructs, every column a field of the query and every string constant a value of the query.",
-   note="libpg_query v15 grammar/scanner defaults (standard_conforming_strings on); provenance ground truth is the parsed tree (its faithfulness is C06/C08).", ref="5/C02"),
+   note="libpg_query v15 grammar/scanner defaults (standard_conforming_strings on); provenance (admissible columns and string constants) is computed from the query's tokens with the harness' own term decoding, not from the parsed tree.", ref="5/C02"),
   "C03": dict(tech="runtime monitoring: translation check of each rendered query against a reference evaluator on probe rows (leaf layer), propositional truth-table equivalence of the SQL PostgreSQL reads vs the query structure over leaf SQL (composition layer), end-to-end row evaluation",
    text="Leaf classes enumerated exhaustively with seeded values and compared with the query's meaning on probe rows; compounds checked by full truth tables over atoms and, when all leaves are clean, on rows. Known leaf defects are listed by signature in KNOWN_FINDINGS.txt.",
    note="Two-valued typed model on non-NULL rows, exact rationals, bytewise string order, SIMILAR TO via anchored regexp; SQL read by libpg_query.", ref="5/C03"),
@@ -49,8 +49,8 @@ CHECKS = {
   "C08": dict(tech="runtime monitoring: identity oracle on generator-chosen strings through the tree, PostgreSQL's string-literal decoder (libpg_query) and the parameter list, in 8 syntactic positions and two spellings",
    text="Every string explored, quoted and (when eligible) fully escaped, must arrive byte for byte in the tree, in the constants PostgreSQL decodes from the inline SQL and in the parameters.",
    note="Values with NUL or invalid UTF-8 cannot be SQL text; their rejection by the renderer is counted, not a violation.", ref="5/C08"),
-  "C14": dict(tech="runtime monitoring: Go race detector (-race build, yield-only hook sinks) over concurrent operation scripts on shared driver and shared expressions; result comparison with a sequential baseline; twin-expression immutability check; overlap accounting",
-   text="2/8/64 goroutines x GOMAXPROCS 2/4/16 run seeded scripts of 12 operations over shared expressions and the package-level driver under the race detector; any race report, any result differing from the sequential baseline, any nondeterministic repeat and any modified expression is a violation. Interleavings are those the scheduler produced (overlapping operation pairs are counted).",
+  "C14": dict(tech="runtime monitoring: Go race detector (-race build, yield-only hook sinks) over concurrent operation scripts on shared driver and shared expressions; result comparison with a sequential baseline; twin-expression and snapshot immutability checks; cold-start and call-sequence purity phases; overlap accounting",
+   text="2/8/64 goroutines x GOMAXPROCS 2/4/16 run seeded scripts of 16 operations (shared option values and option slices included) over shared expressions (parsed, constructor-built and decoded) and the package-level driver under the race detector; any race report, any result differing from the sequential baseline, any nondeterministic repeat and any modified expression is a violation. Interleavings are those the scheduler produced (overlapping operation pairs are counted).",
    note="The race detector only sees executed interleavings; overlap accounting runs in separate configurations because its atomics add synchronisation.", ref="5/C14"),
 }
 NOT_YET = {
